@@ -153,6 +153,11 @@ type FailoverController struct {
 	failbackTime   time.Time
 	lastRoleChange time.Time
 
+	// failoverRunning is set while one invocation of executeFailover is carrying
+	// out the promotion (it releases the lock for the grace period and the
+	// role-change callback); a second invocation must not promote again.
+	failoverRunning bool
+
 	// Timers
 	failoverTimer *time.Timer
 	failbackTimer *time.Timer
@@ -419,6 +424,9 @@ func (c *FailoverController) initiateFailover(reason string) error {
 	if c.currentRole == RoleActive {
 		return fmt.Errorf("already active, cannot failover")
 	}
+	if c.failoverRunning {
+		return fmt.Errorf("failover already in progress")
+	}
 
 	// failoversInitiated is counted by executeFailover, which carries out every
 	// initiated failover.
@@ -440,11 +448,14 @@ func (c *FailoverController) initiateFailover(reason string) error {
 func (c *FailoverController) executeFailover(reason string) {
 	c.mu.Lock()
 
-	if c.state != FailoverStatePending && c.state != FailoverStateInProgress {
+	// A failover that another invocation is already carrying out (timer and
+	// operator command, or two commands) is not carried out a second time.
+	if c.failoverRunning || (c.state != FailoverStatePending && c.state != FailoverStateInProgress) {
 		c.mu.Unlock()
 		return
 	}
 
+	c.failoverRunning = true
 	c.state = FailoverStateInProgress
 	oldRole := c.currentRole
 	newRole := RoleActive
@@ -475,6 +486,7 @@ func (c *FailoverController) executeFailover(reason string) {
 			)
 			c.mu.Lock()
 			c.state = FailoverStateNormal
+			c.failoverRunning = false
 			c.mu.Unlock()
 			return
 		}
@@ -484,6 +496,7 @@ func (c *FailoverController) executeFailover(reason string) {
 	c.currentRole = newRole
 	c.state = FailoverStateComplete
 	c.lastRoleChange = time.Now()
+	c.failoverRunning = false
 	c.mu.Unlock()
 
 	atomic.AddUint64(&c.failoversCompleted, 1)
